@@ -415,11 +415,44 @@ def _foreign(ctx, run, *values):
     return sorted(out)
 
 
+def _no_such_attr(ctx, solver, name):
+    """`self.X` where nothing in the class or its base provides X (no assignment through self, no method / property / class-level name, no
+    __getattr__, setattr or __dict__ tricks in those modules): reading it raises AttributeError - a defect, not something to interpret"""
+    parts = name.split(".")
+    if len(parts) < 2 or parts[0] != "self" or parts[1] in _state_attrs(ctx, solver):
+        return False
+    cache = ctx.__dict__.setdefault("_c02_class_names", {})
+    if solver not in cache:
+        names, dynamic = set(), False
+        for rel, cls in _classes(solver):
+            tree = ctx.src.mod(rel).tree
+            for x in ast.walk(tree):
+                if isinstance(x, ast.Call) and dotted(x.func) in ("setattr", "vars", "object.__setattr__"):
+                    dynamic = True
+                if isinstance(x, ast.Attribute) and x.attr in ("__dict__", "__getattr__", "__getattribute__"):
+                    dynamic = True
+                if isinstance(x, ast.FunctionDef) and x.name in ("__getattr__", "__getattribute__"):
+                    dynamic = True
+            for c in tree.body:
+                if isinstance(c, ast.ClassDef) and c.name == cls:
+                    if any(not (isinstance(b_, ast.Name) and b_.id in {k for _, k in _classes(solver)} | {"object"}) for b_ in c.bases):
+                        dynamic = True          # a base class the rule does not read
+                    for st in c.body:
+                        if isinstance(st, (ast.FunctionDef, ast.ClassDef)):
+                            names.add(st.name)
+                        for y in ast.walk(st) if isinstance(st, (ast.Assign, ast.AnnAssign, ast.AugAssign)) else ():
+                            if isinstance(y, ast.Name) and isinstance(y.ctx, ast.Store):
+                                names.add(y.id)
+        cache[solver] = (names, dynamic)
+    names, dynamic = cache[solver]
+    return not dynamic and parts[1] not in names
+
+
 def _refutable(ctx, run, ok, text, node, *values):
     """False (and an analysis error is recorded) when `ok` is False but the compared formulas contain atoms the rule has no meaning for"""
     if ok:
         return True
-    bad = _foreign(ctx, run, *values)
+    bad = [b for b in _foreign(ctx, run, *values) if not _no_such_attr(ctx, run.solver, b)]
     if bad:
         ctx.error(f"{text}: the formula contains {', '.join('`' + b + '`' for b in bad)}, which the rule cannot interpret", node, [repr(v) for v in values][:2])
         return False
